@@ -45,6 +45,10 @@ class VerifyKeyModel:
                 sig = args[1] if len(args) > 1 else kw.get('signature')
                 key = (repr(it_.vkey(self.pk)), repr(it_.vkey(msg)), repr(it_.vkey(sig)))
                 self.rule['asked'].append(key)
+                ln = it_.models.bytes_len(it_, sig) if not (isinstance(sig, K) and sig.v is None) else None
+                if sig is not None and isinstance(ln, K) and ln.v != 64:
+                    # PyNaCl refuses a signature that is not exactly 64 bytes before libsodium runs: nacl.exceptions.ValueError
+                    raise RaiseEx('NaclValueError', 'The signature must be exactly 64 bytes long')
                 if key in self.rule['valid']:
                     return msg
                 raise RaiseEx('BadSignatureError', 'oracle: not a valid signature of this message under this key')
@@ -100,7 +104,7 @@ def scenario(prog, n, seq, weights=None):
         msg = spec_payload(R, F)
         sigs = []
         for j, (kind, i) in enumerate(seq):
-            sg = Sym(f'S{j}', ty='bytes', n=64, key=('sig', j))
+            sg = Sym(f'S{j}', ty='bytes', n=64 if kind != 'malformed' else 63, key=('sig', j))
             pk = unknown_pk if kind == 'unknown' else pks[i]
             if kind == 'valid':
                 state['valid'].add((repr(it.vkey(pk)), repr(it.vkey(msg)), repr(it.vkey(sg))))
@@ -184,6 +188,30 @@ def check(run):
         r = it.invoke(prog.func('verify_sign'), [P, M, sg], {})
         run.check(isinstance(r, K) and r.v is valid, 'D3', 'verify_sign' if not (isinstance(r, K) and r.v is valid) else f'verify_sign[{"valid" if valid else "invalid"}]',
                   f'{"valid" if valid else "invalid"} signature -> {vrepr(r)}', prog.where(prog.func('verify_sign')))
+
+    # a signature of the wrong length (PyNaCl raises its own ValueError, a CryptoError): never True
+    st = dict(valid=set(), asked=[])
+    it = mk(prog, st)
+    M = Sym('M', ty='bytes', n=68, key=('m',))
+    for ln in (0, 63, 65):
+        short = Sym(f'sig{ln}', ty='bytes', n=ln, key=('sigshort', ln))
+        try:
+            r = it.invoke(prog.func('verify_sign'), [P, M, short], {})
+            res = vrepr(r)
+            ok = isinstance(r, K) and r.v is False
+        except RaiseEx as e:
+            res, ok = f'raises {e.kind}', True
+        run.check(ok, 'D3', 'verify_sign[malformed signature]' if not ok else f'verify_sign[{ln}-byte signature]', f'{ln}-byte signature -> {res} (must be False or an exception, never True)',
+                  prog.where(prog.func('verify_sign')))
+    for n in (1, 2, 3):
+        for p_ in range(n):
+            for seq in ([('valid', i) if i != p_ else ('malformed', i) for i in range(n)], [('valid', i) for i in range(n)] + [('malformed', p_)],
+                        [('malformed', p_)] + [('valid', i) for i in range(n)]):
+                tag = f'n={n},sigs=[{",".join(k + str(i) for k, i in seq)}]'
+                for (kind, res, it2), desc in scenario(prog, n, seq):
+                    run.evaluations += 1
+                    run.check(kind == 'raise', 'D3', 'check_block_signatures[malformed]' if kind != 'raise' else f'{tag}|{desc[:24]}',
+                              f'{tag}: ' + ('rejected' if kind == 'raise' else f'accepted although one entry is a 63-byte string, not a signature (path {desc})'), w)
 
     # ---- scenarios
     maxlen = 4 if thorough else 3
